@@ -637,7 +637,8 @@ Section Sound.
     lasterr s' = false /\
     (failed s' = failed s \/ failed s' = n :: failed s) /\
     (jobs s' = jobs s \/
-     exists pre j post, jobs s = pre ++ j :: post /\ jname j = n /\
+     exists pre j post, split_job n kk (jobs s) = Some (pre, j, post) /\
+       jobs s = pre ++ j :: post /\ jname j = n /\
        (jobs s' = pre ++ post \/ exists p, jobs s' = pre ++ set_pc j p :: post)) /\
     (issued s' <> issued s -> lock_held (jobs s) n = true).
   Proof.
@@ -645,15 +646,6 @@ Section Sound.
     destruct (split_job n kk (jobs s)) as [[[pre j] post]|] eqn:SJ.
     2:{ cbn. repeat split; auto; try (intros H; exfalso; apply H; reflexivity). }
     destruct (split_job_spec _ _ _ _ _ _ SJ) as [EJ EN].
-    assert (Sh1 : forall p, jobs s = jobs s \/
-                  exists pre0 j0 post0, jobs s = pre0 ++ j0 :: post0 /\ jname j0 = n /\
-                    (pre ++ set_pc j p :: post = pre0 ++ post0 \/
-                     exists p0, pre ++ set_pc j p :: post = pre0 ++ set_pc j0 p0 :: post0)).
-    { intros p. right. exists pre, j, post. repeat split; eauto. }
-    assert (Sh2 : exists pre0 j0 post0, jobs s = pre0 ++ j0 :: post0 /\ jname j0 = n /\
-                    (pre ++ post = pre0 ++ post0 \/
-                     exists p0, pre ++ post = pre0 ++ set_pc j0 p0 :: post0)).
-    { exists pre, j, post. repeat split; eauto. }
     assert (LK : jpc_ j = Locked -> lock_held (jobs s) n = true).
     { intros L. unfold lock_held. apply existsb_exists. exists j. split.
       - rewrite EJ, in_app_iff; cbn; auto.
@@ -662,8 +654,44 @@ Section Sound.
       repeat split; auto;
       try (intros H; exfalso; apply H; reflexivity);
       try (intros _; apply LK; reflexivity).
-    all: try (right; eexists pre, j, post; repeat split; eauto; fail).
+    all: try (right; exists pre, j, post; repeat split; eauto; fail).
   Qed.
+
+  (** when a job ends, the certificate stored under its name is in the cache *)
+  Lemma job_step_done_cache s n kk pre j post :
+    WF s -> split_job n kk (jobs s) = Some (pre, j, post) ->
+    jobs (step s (JobStep n kk)) = pre ++ post ->
+    forall st, stored (store (step s (JobStep n kk))) n = Some st ->
+               In st (cache (step s (JobStep n kk))).
+  Proof.
+    intros W SJ. destruct (split_job_spec _ _ _ _ _ _ SJ) as [EJ EN].
+    assert (Hj : In j (jobs s)) by (rewrite EJ, in_app_iff; cbn; auto).
+    assert (L1 : forall p, pre ++ set_pc j p :: post = pre ++ post -> False).
+    { intros p H. apply (f_equal (@length job)) in H. rewrite !app_length in H. cbn in H. lia. }
+    assert (L2 : jobs s = pre ++ post -> False).
+    { intros H. rewrite EJ in H. apply (f_equal (@length job)) in H. rewrite !app_length in H. cbn in H. lia. }
+    unfold Model.step, job_step. comp. rewrite SJ.
+    destruct (jkd j) eqn:K, (jpc_ j) eqn:PC.
+    - destruct (stored (store s) n) as [st0|] eqn:S; comp.
+      + intros _ st E. rewrite S in E. injection E as <-. eapply In_cache_add_stored; eauto.
+      + destruct (lock_held (jobs s) n); comp; intros H; exfalso; eauto.
+    - destruct (stored (store s) n) as [st0|] eqn:S; comp; [intros H; exfalso; eauto|].
+      destruct (is_failing _ n); comp; intros H; exfalso; eauto.
+    - destruct (stored (store s) n) as [st0|] eqn:S; comp.
+      + intros _ st E. rewrite S in E. injection E as <-. eapply In_cache_add_stored; eauto.
+      + intros _ st E. rewrite S in E. discriminate.
+    - destruct (lock_held (jobs s) n); comp; intros H; exfalso; eauto.
+    - destruct (stored (store s) n) as [st0|] eqn:S; comp; [|intros H; exfalso; eauto].
+      destruct (cdue st0); [|comp; intros H; exfalso; eauto].
+      destruct (is_failing _ n); comp; intros H; exfalso; eauto.
+    - destruct (wf_job_renew od s j W Hj K) as (old & O & Ho & _). rewrite O. comp.
+      intros _ st E. unfold reload_one. rewrite Ho, EN, E. unfold cache_replace.
+      apply In_cache_add_new. intros x Hx Ex. apply In_cache_remove in Hx as [Hx _].
+      apply (wf_uniq od s W); auto using InSt_cache. eapply InSt_stored; eauto.
+  Qed.
+
+  Lemma ost_observe_ge s n : k <= n -> ost (observe s) n = None.
+  Proof. intros H. unfold ost; cbn. apply nth_overflow. rewrite map_length, seq_length; exact H. Qed.
 
   Lemma count_codes_perm x js js' :
     Permutation js js' -> count x (map job_code js) = count x (map job_code js').
@@ -707,13 +735,25 @@ Section Sound.
     - apply perm_eqb_of_perm. cbn [o_jobs Model.observe].
       eapply perm_trans; [apply perm_filter, sort_by_perm|].
       eapply perm_trans; [|apply Permutation_sym, perm_filter, sort_by_perm].
-      destruct Sh as [->|(pre & j & post & -> & EN & [->|(p & ->)])]; auto.
+      destruct Sh as [->|(pre & j & post & _ & -> & EN & [->|(p & ->)])]; auto.
       + rewrite (filter_other_names n pre j post EN). auto.
       + rewrite (filter_other_names n pre j post EN), (filter_other_names n pre (set_pc j p) post EN). auto.
     - apply Nat.leb_le. cbn [o_jobs Model.observe]. rewrite !sort_filter_len.
-      destruct Sh as [->|(pre & j & post & -> & EN & [->|(p & ->)])]; auto.
+      destruct Sh as [->|(pre & j & post & _ & -> & EN & [->|(p & ->)])]; auto.
       + apply filter_this_name_len.
       + rewrite !map_app, !filter_app, !app_length. cbn [map filter]. rewrite !code_name_job. cbn [set_pc jname]. destruct (jname j =? n); cbn [length]; lia.
+    - (* a job that ends leaves the stored certificate in the cache *)
+      cbn [o_jobs Model.observe]. rewrite !sort_filter_len.
+      destruct Sh as [E|(pre & j & post & SJ & EJ & EN & [E|(p & E)])].
+      + rewrite E, Nat.leb_refl. reflexivity.
+      + apply orb_true_iff; right. destruct (le_lt_dec k n) as [Hge|Hlt].
+        * rewrite ost_observe_ge by exact Hge. reflexivity.
+        * rewrite ost_observe by exact Hlt.
+          destruct (stored (store s') n) as [st|] eqn:S; auto.
+          apply mem_observe_cache. eapply job_step_done_cache; eauto.
+      + apply orb_true_iff; left. apply Nat.leb_le. rewrite E, EJ.
+        rewrite !map_app, !filter_app, !app_length. cbn [map filter]. rewrite !code_name_job. cbn [set_pc jname].
+        destruct (jname j =? n); cbn [length]; lia.
     - destruct (list_eq_dec Nat.eq_dec (failed s') (failed s)) as [E|E].
       + apply orb_true_iff; left. rewrite (ofl_observe_any k s s' n E). apply Nat.eqb_refl.
       + apply orb_true_iff; right.
